@@ -342,6 +342,52 @@ Proof.
     exact (coh_no_entry s t C Hpc k false Hin).
 Qed.
 
+Lemma hand_on_coh c s order s2 : coh s -> hand_on c s order = Some s2 -> coh s2.
+Proof.
+  unfold hand_on. destruct requeue_hands_on; [apply release_waiter_coh|]. intros C [= <-]. exact C.
+Qed.
+
+Lemma hand_on_facts c s order s2 :
+  hand_on c s order = Some s2 ->
+  (forall x, In x (waiters s2) -> In x (waiters s)) /\
+  (forall t, In t (woken s2) -> In t (woken s) \/ exists k, In (t, k, false) (waiters s)) /\
+  (forall t, (forall k, ~ In (t, k, false) (waiters s)) -> get_pc (pcs s2) t = get_pc (pcs s) t).
+Proof.
+  unfold hand_on. destruct requeue_hands_on; [apply release_waiter_facts|]. intros [= <-]. repeat split; auto.
+Qed.
+
+Lemma start_tail_coh c s t k s' :
+  coh s -> ~ In t (map wtask (waiters s)) -> ~ In t (woken s) -> start_tail c s t k = Some s' -> coh s'.
+Proof.
+  intros C Hno Hnw H. unfold start_tail in H.
+  destruct (connect_must_wait (avail c s k)); [|injection H as <-; apply proceed_coh; assumption].
+  destruct (refuse_wait s); injection H as <-.
+  { apply coh_with_pc; [exact C|exact Hno|intro X; contradiction]. }
+  apply coh_enqueue; try assumption.
+  - intro x. rewrite in_app_iff. cbn [In].
+    split; [intros [A|[A|[]]]; [right; exact A|left; symmetry; exact A]
+           |intros [A|A]; [right; left; symmetry; exact A|left; exact A]].
+  - rewrite map_app. cbn [map]. destruct C as (_ & C2 & _). apply NoDup_snoc; assumption.
+Qed.
+
+Lemma requeue_coh c s1 t k order s' :
+  coh s1 -> ~ In t (map wtask (waiters s1)) -> ~ In t (woken s1) -> requeue c s1 t k order = Some s' -> coh s'.
+Proof.
+  intros C1 Hno Hnw H. unfold requeue in H. destruct (hand_on c s1 order) as [s2|] eqn:Eh; [|discriminate].
+  pose proof (hand_on_coh _ _ _ _ C1 Eh) as C2. destruct (hand_on_facts _ _ _ _ Eh) as (F1 & F2 & _).
+  assert (Hno2 : ~ In t (map wtask (waiters s2))).
+  { intro X. apply in_map_iff in X as ([[t' k'] b] & E & X). unfold wtask in E. cbn in E. subst t'.
+    apply Hno. apply in_map_iff. exists (t, k', b). split; [reflexivity|apply F1; exact X]. }
+  assert (Hnw2 : ~ In t (woken s2)).
+  { intro X. apply F2 in X as [X|(k' & X)]; [contradiction|].
+    apply Hno. apply in_map_iff. exists (t, k', false). split; [reflexivity|exact X]. }
+  destruct (refuse_wait s2); injection H as <-.
+  { apply coh_with_pc; [exact C2|exact Hno2|intro X; contradiction]. }
+  apply coh_enqueue; try assumption.
+  - intro x. cbn [In]. split; (intros [E|E]; [left; symmetry; exact E|right; exact E]).
+  - cbn [map]. constructor; [exact Hno2|]. destruct C2 as (_ & X & _). exact X.
+Qed.
+
 Lemma step_coh c s e s' : coh s -> step c s e = Some s' -> coh s'.
 Proof.
   intros C H. destruct e as [t k|t order|t|t|t order|t cl order|]; cbn [step] in H.
@@ -351,16 +397,9 @@ Proof.
     { apply coh_no_task; [exact C|]. rewrite Ep. intros; discriminate. }
     assert (Hnw : ~ In t (woken s)).
     { apply coh_not_woken; [exact C|]. rewrite Ep. apply not_woken_pc_idle. }
-    destruct (take_idle k (idle s)) as [x|] eqn:Ei.
+    destruct (if connect_fast_path (avail c s k) then take_idle k (idle s) else None).
     + injection H as <-. apply proceed_coh; assumption.
-    + destruct (connect_must_wait (avail c s k)); [|injection H as <-; apply proceed_coh; assumption].
-      destruct (refuse_wait s); injection H as <-.
-      { apply coh_with_pc; [exact C|exact Hno|intro X; contradiction]. }
-      apply coh_enqueue; try assumption.
-      * intro x. rewrite in_app_iff. cbn [In].
-        split; [intros [A|[A|[]]]; [right; exact A|left; symmetry; exact A]
-               |intros [A|A]; [right; left; symmetry; exact A|left; exact A]].
-      * rewrite map_app. cbn [map]. destruct C as (_ & C2 & _). apply NoDup_snoc; assumption.
+    + eapply start_tail_coh; eauto.
   - (* EResume *)
     destruct (get_pc (pcs s) t) as [| k f | | | | |] eqn:Ep; try discriminate.
     destruct f; try discriminate.
@@ -377,11 +416,7 @@ Proof.
       { unfold s1. cbn [with_woken woken]. intro Hin. apply filter_In in Hin as [_ Hin].
         rewrite N.eqb_refl in Hin. discriminate. }
       destruct (wait_slot_found (avail c s1 k)); [injection H as <-; apply proceed_coh; assumption|].
-      destruct (refuse_wait s1); injection H as <-.
-      { apply coh_with_pc; [exact C1|exact Hno|intro X; contradiction]. }
-      apply coh_enqueue; try assumption.
-      * intro x. cbn [In]. split; (intros [E|E]; [left; symmetry; exact E|right; exact E]).
-      * cbn [map]. constructor; [exact Hno|]. destruct C1 as (_ & C2 & _). exact C2.
+      eapply requeue_coh; eauto.
     + (* cancelled *)
       injection H as <-.
       apply coh_with_pc.
